@@ -175,6 +175,14 @@ func (c *AppenderRefs) writeToAppenders(l Level, b []byte) {
 	}
 }
 
+// writeRawToAppenders forwards bytes that carry no level, such as
+// pre-formatted messages written through a logger handle, to every appender.
+func (c *AppenderRefs) writeRawToAppenders(b []byte) {
+	for _, r := range c.AppenderRefs {
+		r.Write(b)
+	}
+}
+
 // SyncLogger is a synchronous logger that immediately forwards events to appenders.
 type SyncLogger struct {
 	LoggerBase
@@ -199,7 +207,7 @@ func (c *SyncLogger) Append(e *Event) {
 
 // Write writes raw bytes directly to appenders.
 func (c *SyncLogger) Write(b []byte) {
-	c.writeToAppenders(MaxLevel, b)
+	c.writeRawToAppenders(b)
 }
 
 // BufferFullPolicy specifies what to do when an async buffer is full.
@@ -271,7 +279,7 @@ func (c *AsyncLogger) Start() error {
 				}
 				PutEvent(x)
 			case []byte:
-				c.writeToAppenders(MaxLevel, x)
+				c.writeRawToAppenders(x)
 			default: // for linter
 			}
 		}
